@@ -32,7 +32,7 @@ def cases(draw, tier):
         abort = {"inv": draw(st.integers(0, ninv - 1)), "sig": draw(st.sampled_from(["INT", "TERM"])),
                  "after": draw(st.integers(1, 6))}
     return {"project": proj, "invs": invs, "schedule": draw(sgen.schedule()), "failing": failing, "abort": abort,
-            "sopts": {"coincide": draw(st.integers(0, 2)) == 0, "token_games": False,
+            "sopts": {"seed": draw(st.integers(0, 2 ** 31 - 1)), "coincide": draw(st.integers(0, 2)) == 0, "token_games": False,
                       "patient": draw(st.integers(0, 1)) == 1,
                       "start_first": draw(st.integers(0, 2)) > 0}}
 
